@@ -107,6 +107,7 @@ def all_cases(tier):
     yield from _cases_up(tier)
     yield from _cases_sub(tier)
     yield from _cases_exports(tier)
+    yield from _cases_deep(tier)
 
 
 def _cases_up(tier):
@@ -138,6 +139,33 @@ E_AFORMS = {"plus": "__all__ = b.__all__ + ['y']", "star": "__all__ = [*b.__all_
 E_IFORMS = {"none": "from .c import *", "plain": "from .c import *\n__all__ = ['x', 'y']", "empty": "__all__ = []", "composite": "from . import a\nfrom .a import *\n__all__ = [*a.__all__]"}
 E_SUB = {"pkg/sub/__init__.py": "from . import m\nfrom .m import *\n__all__ = m.__all__ + ['s']\ndef s(): ...\n", "pkg/sub/m.py": "__all__ = ['w']\ndef w(): ...\ndef v(): ...\n",
          "pkg/sub/n.py": "from pkg.sub import *\n"}
+
+
+# D: relative imports of every level from an `__init__` module and from a plain module THREE packages deep (pkg/mid/deep/): one, two and three dots
+D_STMTS = ["from . import leaf", "from .leaf import w", "from .. import base", "from ..base import Base", "from ..base import *", "from .. import mid_x", "from ... import top", "from ...top import x",
+           "from ...top import *", "from pkg.mid.base import reg as abs_reg"]
+D_LEAF = ["from . import sibling", "from .sibling import s", "from .. import base as leaf_base", "from ..base import Base as LB", "from ... import mid", "from ...mid.base import reg", "from ... import top as leaf_top"]
+
+
+def _cases_deep(tier):
+    for i in range(len(D_STMTS)):
+        yield ((i,), "d", "deep:")
+    yield (tuple(range(len(D_STMTS))), "d", "deep:")
+
+
+def _files_deep(case):
+    sel = case[0]
+    files = {
+        "vmod.py": "class V:\n    def __init__(self, origin):\n        self.origin = origin\n",
+        "pkg/__init__.py": "",
+        "pkg/top.py": "def x(): ...\nclass y: ...\ndef _p(): ...\n",
+        "pkg/mid/__init__.py": "def mid_x(): ...\n",
+        "pkg/mid/base.py": "class Base: ...\ndef reg(): ...\n",
+        "pkg/mid/deep/__init__.py": "\n".join(D_STMTS[i] for i in sel) + "\n",
+        "pkg/mid/deep/sibling.py": "def s(): ...\n",
+        "pkg/mid/deep/leaf.py": "def w(): ...\n" + "\n".join(D_LEAF) + "\n",
+    }
+    return files, ("pkg.top", "pkg.mid.base", "pkg.mid", "pkg.mid.deep.sibling", "pkg.mid.deep.leaf", "pkg.mid.deep")
 
 
 def _cases_exports(tier):
@@ -282,6 +310,8 @@ def _pattern(case, module):
     sel, bv, init = case
     if init == "exp:":
         return f"exports[{','.join(sel)}]/{module}"
+    if init == "deep:":
+        return f"deep[{'all' if len(sel) > 1 else D_STMTS[sel[0]]}]/{module}"
     if init.startswith("sub:"):
         return {"pkg.sub": "subinit[" + ",".join(sel) + "]", "pkg.sub.m": bv, "pkg": init, "pkg.top": "top"}[module]
     if module == "pkg.a":
@@ -292,13 +322,15 @@ def _pattern(case, module):
 
 
 def run_case(griffe, acc, case):
-    files = _files_exports(case)[0] if case[2] == "exp:" else files_for(case)
+    files = _files_exports(case)[0] if case[2] == "exp:" else _files_deep(case)[0] if case[2] == "deep:" else files_for(case)
     with sandbox.scratch_dir("c05") as d:
         sandbox.write_tree(d, files)
         is_sub = case[2].startswith("sub:")
         modnames = MODS_SUB if is_sub else MODS_FLAT
         if case[2] == "exp:":
             modnames = _files_exports(case)[1]
+        if case[2] == "deep:":
+            modnames = _files_deep(case)[1]
         exp = cpython_view(d, modnames)
         cd = {"case": [list(case[0]), case[1], case[2]], "files": {k: v for k, v in files.items() if k != "vmod.py"}}
         size = sum(len(v) for v in files.values())
@@ -317,10 +349,10 @@ def run_case(griffe, acc, case):
             acc.case(cd, outcome="cpython-rejects:" + exp[1], nontrivial=False)
             acc.counters["cpython_rejected"] += 1
             return
-        has_import = any(s.startswith(("wild", "from", "import", "abs")) for s in case[0]) or case[2] != "none"
+        has_import = any(str(s).startswith(("wild", "from", "import", "abs")) for s in case[0]) or case[2] != "none"
         acc.case(cd, outcome="imported", nontrivial=has_import)
         acc.observe(got)
-        for mod in (modnames if case[2] == "exp:" else ("pkg.top", "pkg", "pkg.sub.m", "pkg.sub") if is_sub else ("pkg.b", "pkg", "pkg.a") if case[2].startswith("up:") else ("pkg.b", "pkg.a", "pkg")):
+        for mod in (modnames if case[2] in ("exp:", "deep:") else ("pkg.top", "pkg", "pkg.sub.m", "pkg.sub") if is_sub else ("pkg.b", "pkg", "pkg.a") if case[2].startswith("up:") else ("pkg.b", "pkg.a", "pkg")):
             (ens, eall), (gns, gall) = exp[mod], got[mod]
             if is_sub and mod == "pkg.sub" and "up-star" in case[0]:
                 # (see the U family: sub-module attributes copied by a star import of the parent are an artefact of import order)
